@@ -111,6 +111,7 @@ impl Adapter for CbAd {
             "D": *rng.pick(&[2u64, 4, 7]), "wait": if storm { 1 + rng.below(2) as u64 } else { *rng.pick(&[1u64, 2, 3, 5]) }, "cls": *rng.pick(&["default", "e2ok"]),
             "fb": if seq { 0 } else { rng.below(2) },
             "lazy": if seq && rng.pct(40) { 1 } else { 0 },
+            "ctor": rng.below(2),
         })
     }
     fn build(&mut self, cfg: &Value, sim: &mut Sim) {
@@ -129,15 +130,18 @@ impl Adapter for CbAd {
         let inner = Inner::new(&sim.w);
         let fb = u("fb") == 1;
         let fallback = |r: Req| -> BoxFuture<'static, Result<Resp, IErr>> { Box::pin(async move { Ok(Resp { serial: 9000 + r.id as u64, req: r.id }) }) };
+        use tower::Layer;
+        let via_layer = cfg["ctor"].as_u64().unwrap_or(0) == 1;
         let h: Box<dyn Handle> = if cfg["cls"] == "default" {
-            let svc = b.build().layer_fn(inner);
+            let svc = if via_layer { b.build().layer(inner) } else { b.build().layer_fn(inner) };
             if fb {
                 Box::new(svc.with_fallback(fallback))
             } else {
                 Box::new(svc)
             }
         } else {
-            let svc = b.failure_classifier(|r: &Result<Resp, IErr>| matches!(r, Err(e) if e.code != 2)).build().layer_fn(inner);
+            let l = b.failure_classifier(|r: &Result<Resp, IErr>| matches!(r, Err(e) if e.code != 2)).build();
+            let svc = if via_layer { l.layer(inner) } else { l.layer_fn(inner) };
             if fb {
                 Box::new(svc.with_fallback(fallback))
             } else {
